@@ -11,6 +11,7 @@ Require Import ZV.Model.Bytecode ZV.Model.Verifier ZV.Model.VerifierExamples ZV.
 Require Import ZV.Model.GenAnnot ZV.Proofs.GenVerifies.
 Require Import ZV.Model.Resident ZV.Proofs.ResidentProofs.
 Require ZV.Proofs.GenF1Proofs ZV.Proofs.GenF1Rest.
+Require ZV.Proofs.GenVerifiesLoops.
 Import ListNotations.
 Local Open Scope nat_scope.
 
@@ -107,6 +108,62 @@ Theorem gen_verifies_F1_partial : forall fi e, GenF1.f1 e = true -> lf e = true 
   exists a, check_fn (to_bytecode (GenF1.gen GenF1.top 0 e)) fi true 0 a = true.
 Proof. intros fi e Hf Hl. exists (annot_of e). now apply gen_verifies_F0_lemma. Qed.
 Print Assumptions gen_verifies_F1_partial.
+
+(* round 7 — for loops.  GenVerifiesLoops.annL extends the compositional annotation by GenerateForLoop
+   (LoopStart, AddScope, PushStackmark n, the four labels, init / increment / test / body each followed by
+   its PopUntilStackmark n or Branch, the backward Jump, ClearStackmark n, RemoveScope, Push nil: the
+   loop's clean state  mark n :: s, one more scope  at every label, one value more after each part);
+   GenVerifiesLoops.nj e = no break / continue anywhere in e (for loops in ANY nesting with
+   begin / cond / and / or / def / set / let / letseq / newScope and with each other - in init, test,
+   increment and body - are allowed).  The full statement (see above) also covers break / continue; what is
+   still missing for it: the states that a break / continue carries to the loop's exit / increment label
+   (junk ++ marks of inner loops ++ mark n :: s) as extra members of the sets at those labels, i.e. every
+   helper lemma again with "escaping jump states flow to their loop record's positions" as a hypothesis. *)
+Theorem gen_verifies_F1_loops_partial : forall fi e,
+  GenF1.f1 e = true -> GenVerifiesLoops.nj e = true ->
+  exists a, check_fn (to_bytecode (GenF1.gen GenF1.top 0 e)) fi true 0 a = true.
+Proof.
+  intros fi e Hf Hn. exists (GenVerifiesLoops.annot_ofL e). now apply GenVerifiesLoops.gen_verifies_loops_lemma.
+Qed.
+Print Assumptions gen_verifies_F1_loops_partial.
+
+(* the same with the annotation named: it is the compositional one *)
+Theorem gen_verifies_loops : forall fi e, GenF1.f1 e = true -> GenVerifiesLoops.nj e = true ->
+  check_fn (to_bytecode (GenF1.gen GenF1.top 0 e)) fi true 0 (GenVerifiesLoops.annot_ofL e) = true.
+Proof. exact GenVerifiesLoops.gen_verifies_loops_lemma. Qed.
+Print Assumptions gen_verifies_loops.
+
+(* the loop-free fragment is a strict part of it *)
+Theorem lf_is_jump_free : forall e, lf e = true -> GenVerifiesLoops.nj e = true.
+Proof. exact GenVerifiesLoops.lf_nj. Qed.
+Print Assumptions lf_is_jump_free.
+
+(* generator + machine for programs with loops: ANY path of the value-free machine through the code of a
+   jump-free F1 program (any number of iterations, both outcomes of every test) from rest to the end of
+   the code leaves the interpreter at rest *)
+Theorem loops_leave_nothing_behind : forall fi e s s',
+  GenF1.f1 e = true -> GenVerifiesLoops.nj e = true -> at_rest s = true -> Verifier.pc s = 0 ->
+  arun (to_bytecode (GenF1.gen GenF1.top 0 e)) fi s s' ->
+  length (to_bytecode (GenF1.gen GenF1.top 0 e)) <= Verifier.pc s' ->
+  at_rest (run_finish s') = true.
+Proof. exact GenVerifiesLoops.loops_leave_nothing_behind_lemma. Qed.
+Print Assumptions loops_leave_nothing_behind.
+
+(* non-vacuity: a labelled for whose increment is a let, whose test is an and, whose body holds a second for
+   (with a cond and a newScope in its body) under a letseq: in F1, jump-free, NOT loop-free, accepted *)
+Example gen_verifies_loops_applies :
+  let e := EBegin [EDef 1%Z (EInt 0);
+                   EFor (Some 9%Z) (EDef 2%Z (EInt 0)) (EAnd [EVar 2%Z; ECall (EVar 3%Z) [EVar 2%Z]])
+                        (ELet false [(4%Z, EInt 1)] [ESet 2%Z (EVar 4%Z)])
+                        [ELet true [(5%Z, EVar 2%Z)]
+                           [EFor None (EDef 6%Z (EInt 0)) (EVar 6%Z) (ESet 6%Z (EInt 1))
+                                 [ECond [(EVar 6%Z, EScope [EInt 1; EVar 5%Z])] (EInt 2); EVar 6%Z]];
+                         ESet 1%Z (EVar 2%Z)];
+                   EVar 1%Z] in
+  GenF1.f1 e = true /\ GenVerifiesLoops.nj e = true /\ lf e = false /\
+  check_fn (to_bytecode (GenF1.gen GenF1.top 0 e)) {| f_varargs := false; f_nargs := 0 |} true 0
+           (GenVerifiesLoops.annot_ofL e) = true.
+Proof. vm_compute. repeat split; reflexivity. Qed.
 
 (* generator + machine, no longer per-program translation validation: the code of ANY loop-free
    program, run from the interpreter at rest along any path to its end, leaves it at rest *)
